@@ -871,4 +871,68 @@ def _winit_setup(self, ex):
 
 WorkerInit.setup = _winit_setup
 
-UNITS_BATCH = [WorkerInit, GetInputBatch, BatchGetInput, BatchMain, BuildBatches, BuildBatchesNoPre]
+
+class WorkerStart(Unit):
+    """Worker.start: batch_size > 1 runs the batched loop, otherwise the single-element loop -- exactly one of them, on the given queues; a loop that dies
+    (any BaseException) re-broadcasts the end marker to a fellow worker and sends it downstream before cleanup (so the servlet can still stop), and
+    re-raises everything but KeyboardInterrupt; cleanup runs exactly once on every path."""
+    prop = 'C09'
+    file = F
+    qual = 'Worker.start'
+    numeric_vals_are_ints = True
+    ignore_calls = ('print',)
+    canaries = (('batch_size 1 sent to the batched loop', 'if self.batch_size > 1:', 'if self.batch_size >= 1:', ''),
+                ('a dying worker does not pass the end marker on', '        except BaseException as e:\n            q_in.put(None)\n            q_out.put(None)', '        except BaseException as e:\n            q_out.put(None)', ''),
+                ('loops run on swapped queues', 'self._start_single(q_in=q_in, q_out=q_out)', 'self._start_single(q_in=q_out, q_out=q_in)', ''))
+
+    def setup(self, ex):
+        st = St()
+        self.bs = z3.Int('batch_size')
+        st.assume(self.bs >= 0)
+        st.ghost['log'] = ()
+        self.qin, self.qout = Rec(ex, 'q_in', immutable=True, methods={'put': Fn(self.put('q_in'))}), Rec(ex, 'q_out', immutable=True, methods={'put': Fn(self.put('q_out'))})
+        self.loop_exc = z3.Const('loop_exception', Val)
+        st.assume(V.isinst(self.loop_exc, 'BaseException'), *V.cls_facts(self.loop_exc))
+
+        def loop(name):
+            def f(e, s, a, k, n):
+                s = s.fork()
+                s.ghost['log'] = s.ghost['log'] + ((name, unbox_handle(e, k.get('q_in')), unbox_handle(e, k.get('q_out')), len(a)),)
+                return [('ok', s, NONE), ('raise', s.fork(), self.loop_exc)]
+            return Fn(f)
+
+        def cleanup(e, s, a, k, n):
+            s = s.fork()
+            s.ghost['log'] = s.ghost['log'] + (('cleanup', [box(e, x) for x in a]),)
+            return [('ok', s, NONE)]
+        me = Rec(ex, 'self', immutable=True, methods={'_start_batch': loop('batch'), '_start_single': loop('single'), 'cleanup': Fn(cleanup)}).init(st, batch_size=self.bs, name=z3.StringVal('w'))
+        st.env.update(self=me, q_in=self.qin, q_out=self.qout)
+        return st
+
+    def put(self, qname):
+        def f(e, s, a, k, n):
+            s = s.fork()
+            s.ghost['log'] = s.ghost['log'] + (('put', qname, box(e, a[0])),)
+            return [('ok', s, NONE)]
+        return f
+
+    def post(self, ex, outs):
+        for k, s, p in outs:
+            log = s.ghost['log']
+            loops = [x for x in log if x[0] in ('batch', 'single')]
+            cleanups = [x for x in log if x[0] == 'cleanup']
+            puts = [x for x in log if x[0] == 'put']
+            ok = len(loops) == 1 and loops[0][1] is self.qin and loops[0][2] is self.qout and loops[0][3] == 0 and len(cleanups) == 1 and log.index(loops[0]) == 0 and log[-1] is cleanups[0]
+            which = z3.BoolVal(ok and loops[0][0] == 'batch') == (self.bs > 1) if ok else z3.BoolVal(False)
+            failed = len(puts) > 0 or (cleanups and len(cleanups[0][1]) == 1)
+            if not failed:
+                ex.oblige(s, 'exit: exactly one processing loop ran, on the given queues: the batched one iff batch_size > 1; it ended normally; cleanup() once, last',
+                          z3.And(which, z3.BoolVal(ok and k in ('normal', 'return') and not puts and len(cleanups[0][1]) == 0)))
+            else:
+                marker = len(puts) == 2 and puts[0][1] == 'q_in' and puts[1][1] == 'q_out'
+                ex.oblige(s, 'exit(loop died): the end marker is re-broadcast on the input queue and sent downstream, then cleanup(the exception) once; everything but KeyboardInterrupt is re-raised',
+                          z3.And(which, z3.BoolVal(bool(ok and marker)), puts[0][2] == NONE if marker else z3.BoolVal(False), puts[1][2] == NONE if marker else z3.BoolVal(False),
+                                 cleanups[0][1][0] == self.loop_exc if ok and len(cleanups[0][1]) == 1 else z3.BoolVal(False),
+                                 z3.If(V.isinst(self.loop_exc, 'KeyboardInterrupt'), z3.BoolVal(k in ('normal', 'return')), z3.And(z3.BoolVal(k == 'raise'), p == self.loop_exc if k == 'raise' else z3.BoolVal(False)))))
+
+UNITS_BATCH = [WorkerInit, WorkerStart, GetInputBatch, BatchGetInput, BatchMain, BuildBatches, BuildBatchesNoPre]
